@@ -35,7 +35,9 @@ TRUSTED = ["SHA-256 collision freedom (Section hypothesis hash_inj)",
            "injective like the model's length-prefixed encoding",
            "M_CacheKey.required_cythonize / required_inline: the hand-written lists of output-affecting inputs",
            "property oracle: an uncached compilation of the same request in a fresh directory by the same compiler"]
-ASSUMPTIONS = ["one compile request per OS process (no reuse of in-process @cached_function state between builds)",
+ASSUMPTIONS = ["one compile request per OS process (no reuse of in-process @cached_function state between builds); the "
+               "process is a fork of a compiler process warmed up by compiling an unrelated module, with Cython.Utils "
+               "function caches cleared and the dependency tree reset (cross-checked against cold processes each run)",
                "the generated C file is removed between requests so that cythonize's timestamp shortcut is not what answers",
                "compilation is deterministic (checked: equal requests compiled twice give equal text)"]
 
